@@ -4,6 +4,7 @@ import Duckling.Lemmas.SimplePre
 import Duckling.Lemmas.Digits
 import Duckling.Lemmas.LegalBase
 import Duckling.Lemmas.Legal
+import Duckling.Lemmas.Plain
 /-
   C02 — validated commands never emit an illegal line.
 
@@ -24,8 +25,11 @@ import Duckling.Lemmas.Legal
                                  files on disk) is an IGNORE line, every output line of a successful run is legal — any depth,
                                  context, state (hereditary walk over the whole interpreter);
   * `C02_compile_output_legal`  the same for `Compiler.compile`.
-  Not proved: the third sentence of the property (no DucklingScript-only keyword / `$` name is emitted when no unknown-command
-  warning is raised) — decided by the oracle on generated programs and by the correspondence; `partial` in that respect.
+  * `C02_no_duckling_keyword`   the third sentence: if every command line of the code that can run is a KNOWN command (so no
+                                 unknown-command warning can be raised) and none is IGNORE, no output line starts with a
+                                 DucklingScript-only keyword or a `$` (`Spec.plainLine`); `C02_compile_no_duckling_keyword` for
+                                 `Compiler.compile`.  (The hypothesis "every line is known" is stronger than "no warning was raised":
+                                 a program with an unknown command that is never reached is covered by the oracle only.)
 -/
 namespace Duckling.Props.C02
 open Duckling Duckling.Spec Duckling.Legal
@@ -211,6 +215,34 @@ theorem C02_compile_output_legal (opts : Opts) (fs : FS) (file : Option Path) (s
     · cases h
     · cases h
 
+/-- **no DucklingScript-only word in the output**: every command line known and none IGNORE, in all the code that can run -/
+theorem C02_no_duckling_keyword (d : Nat) (nodes : List Node) (ctx : Ctx) (st : St) (o : Out)
+    (hnodes : allCmdsL knownLine nodes = true) (hst : StOk knownLine st) (hfs : FSOk knownLine ctx.fs)
+    (h : exec d nodes ctx st = .ok o) : ∀ l ∈ o.out, plainLine l = true :=
+  (exec_hereditary hspec_plain d nodes ctx st hnodes hst hfs).outs o h
+
+theorem C02_compile_no_duckling_keyword (opts : Opts) (fs : FS) (file : Option Path) (src : Source)
+    (out : List Str) (warns : List Warn) (prints : List Print) (vars : List (Str × Val))
+    (hsrc : ∀ nodes, prepare src = .ok nodes → allCmdsL knownLine nodes = true) (hfs : FSOk knownLine fs)
+    (h : compile opts fs file src = .ok out warns prints vars) : ∀ l ∈ out, plainLine l = true := by
+  unfold compile at h
+  split at h
+  · cases h
+  · cases h
+  · rename_i nodes hn
+    simp only [] at h
+    split at h
+    · rename_i r hr
+      simp only [Result.ok.injEq] at h
+      obtain ⟨rfl, _, _, _⟩ := h
+      refine C02_no_duckling_keyword _ nodes _ _ r (hsrc nodes hn) ?_ hfs hr
+      intro c hc
+      unfold initEnv at hc
+      split at hc <;> simp [St.codes] at hc
+    · cases h
+    · cases h
+    · cases h
+
 /-- non-vacuity: a program with a function, a loop and validated commands satisfies the hypothesis -/
 example : allLinesL noIgnoreLine
     [.line ⟨"FUNC f p".toList, 1⟩, .block [.line ⟨"$DELAY p".toList, 2⟩], .line ⟨"REPEAT 2".toList, 3⟩,
@@ -218,5 +250,14 @@ example : allLinesL noIgnoreLine
 
 /-- an IGNORE line does not -/
 example : allLinesL noIgnoreLine [.line ⟨"ignore".toList, 1⟩, .block [.line ⟨"DELAY x".toList, 2⟩]] = false := by decide
+
+/-- non-vacuity of the "every line is a known command" hypothesis; an IF without a block is not a known command -/
+example : allCmdsL knownLine
+    [.line ⟨"VAR a 5".toList, 1⟩, .line ⟨"IF a == 5".toList, 2⟩,
+     .block [.line ⟨"$STRING a".toList, 3⟩, .line ⟨"ctrl esc".toList, 4⟩]] = true := by
+  simp only [allCmdsL_line, allCmdsL_block, allCmdsL_nil]; decide +kernel
+
+example : allCmdsL knownLine [.line ⟨"IF a == 5".toList, 2⟩] = false := by
+  simp only [allCmdsL_line, allCmdsL_nil]; decide +kernel
 
 end Duckling.Props.C02
